@@ -535,21 +535,28 @@ def c17(tier, seed, only=None):
     for s in gen.f2_all(tier) + gen.f4_all(tier) + gen.f5_all(tier):
         if s.name == "F5/retry-on-join1":
             continue  # partial join + retry: present for C05/C13/C18; under rerun it only repeats F01
-        cfg = dict(rerun=1, rerun_mode="failed-pairs" if tier != "quick" else "failed", rerun_outcomes=ok_only,
-                   horizon=70)
+        # pairs of explicit requests: first rerun only, and not where a join's barrier is smaller than its
+        # number of inbound tasks ("what follows from" a request is not well defined there, see F01)
+        partial = any(gen_partial_join(s.wf, t) for t in s.wf["tasks"])
+        cfg = dict(rerun=1, rerun_mode="failed-pairs" if (tier != "quick" and not partial) else "failed",
+                   rerun_outcomes=ok_only, horizon=70)
         if gen.is_big(s):
-            cfg["dev"] = 3 if tier == "quick" else 5
+            cfg["dev"] = 3 if (tier == "quick" or partial) else 5
         if gen.is_huge(s):
-            cfg["dev"] = 2 if tier == "quick" else 3
+            cfg["dev"] = 2 if (tier == "quick" or partial) else 3
         if gen.is_cyclic_huge(s) and tier == "quick":
             continue
         jobs.append(job(s, cfg, mons))
-        if tier != "quick" or (not gen.is_big(s) and s.family == "F2"):
+        if (tier != "quick" and not partial) or (not gen.is_big(s) and s.family == "F2"):
             cfg2 = dict(cfg)
+            cfg2["rerun_mode"] = "failed"
             cfg2["rerun_outcomes"] = None
             cfg2["rerun"] = 2
             cfg2["dev"] = 4 if tier == "quick" else 5
             jobs.append(job(s, cfg2, mons))
+        if s.name == "F2/fanin-m2-j2-CC-l1-tail":
+            # F31: a second rerun that names a join together with one of its inbound tasks
+            jobs.append(job(s, dict(rerun=2, rerun_mode="failed-pairs", horizon=70, dev=6), mons))
         if s.name in ("F2/fanin-m2-jall-SS-l1", "F2/fanin-m2-jall-SS-l1-tail", "F2/fanin-roots-all",
                       "F2/fanin-m2-jall-FF-l1", "F2/fanin-m2-jall-CS-l1", "F2/fanin-m2-jall-AS-l1") and tier == "quick":
             # two explicit requests on parallel branches that meet at a join
@@ -577,6 +584,13 @@ def c17(tier, seed, only=None):
         "justified; inadmissible requests probed in every state; clean-twin comparison at the end"
     )
     return runner.finish("C17", tier, seed, MC, results, rule, t0, mons)
+
+
+def gen_partial_join(wf, t):
+    from vx.refdef import RefDef
+
+    d = RefDef(wf)
+    return d.is_join(t) and d.join_requirement(t) < len(d.inbound_tasks(t))
 
 
 REGISTRY.update({"C17": c17})
